@@ -26,21 +26,21 @@ CLAIMS = {
     "C16": dict(
         level="exploration",
         technique="stateful property-based testing with probe effects recording init / on_change_sample_rate / dt through generated add-track / change-rate / callback histories, plus metamorphic checks of seconds and hertz across a mid-stream rate change",
-        text="Histories of adding tracks (nested, send, main), dropping them, changing the device rate (8k..192k) and running callbacks in any order are audited through probe effects: at every process call dt and the last announced rate must be the rate in force. With a rate change at a generated callback, an index-coded sound must keep pitch (1.5 frames) and duration (one callback), a clock its speed (1e-9), a volume tween its duration (one callback), a delay its time (exact frame), a low-pass its corner gain (0.2 dB). Search with shrinking.",
+        text="Histories of adding tracks (nested, send, main), dropping them, changing the device rate (8k..192k) and running callbacks in any order are audited through probe effects: at every process call dt and the last announced rate must be the rate in force. With a rate change at a generated callback, an index-coded sound must keep pitch (1.5 frames) and duration (one callback), a clock its speed (1e-9), a volume tween its duration (one callback), a delay its time (exact frame), a low-pass its corner gain (0.2 dB). Any built-in effect (feedback effects nested in delays included) that has only processed silence at one rate and is then told another must match a fresh instance at the new rate. Search with shrinking.",
         note="The schedule 'rate read, rate changes, track enqueued' inside add_sub_track is represented by its sequential form (track queued, then change), which is the known finding excluded by construction; no H4 hook was needed.",
         design="5/C16",
     ),
     "C15": dict(
         level="exploration",
         technique="property-based testing with a reference formula plus metamorphic relations between renders (monotonicity along a ray, mirroring, rigid motion, strength 0, listener drop / slot reuse, tween end state, nesting) through the real manager",
-        text="Generated listener / emitter geometries (coincident, axis-aligned, in range, up to 1e5 units away), distance ranges, attenuation curves, strengths and stereo inputs are rendered through the manager; the steady-state frame must match the documented level = attenuation(distance) x ear-gain model (f64) and satisfy one of ten relations between independent renders. Search with shrinking.",
+        text="Generated listener / emitter geometries (coincident, axis-aligned, in range, up to 1e5 units away), distance ranges, attenuation curves, strengths and stereo inputs are rendered through the manager; the steady-state frame must match the documented level = attenuation(distance) x ear-gain model (f64) and satisfy one of twelve relations between independent renders (monotone along a ray, mirroring, rigid motion, strength 0, dropped listener / slot reuse, listener-distance parameters on the track, a plain child and a plain grandchild, tweens ending at the static result, a move commanded before the first callback being complete from the second one on, nesting). Search with shrinking.",
         note="Tolerances scale with coordinate magnitude (f32 positions), the steepness of the attenuation curve and the jump of the decibel scale at -60 dB; all stated in the evidence.",
         design="5/C15",
     ),
     "C17": dict(
         level="exploration",
         technique="model-based property testing: LFO driven directly against an independent waveform/phase model over generated set_*/update histories, and modulator -> parameter chains through the real renderer with probe modulators and probe effects recording per-internal-buffer values",
-        text="LFOs (four waveforms, frequencies to 1e5 Hz, signed amplitudes/offsets/phases, tweens, set_phase/set_waveform) must stay within offset +- |amplitude| and on the documented curve after every update; through the renderer, probe-effect parameters linked to tweeners, LFOs and probe modulators via generated mappings (inverted ranges, all easings) must equal the mapping of the modulator's value of the same internal buffer, hold after the modulator is dropped, and probe modulators must be updated exactly once per buffer with the right dt. Search with shrinking.",
+        text="LFOs (four waveforms, frequencies to 1e5 Hz, signed amplitudes/offsets/phases, tweens, set_phase/set_waveform) must stay within offset +- |amplitude| and on the documented curve after every update; through the renderer, probe-effect parameters linked to tweeners, LFOs and probe modulators via generated mappings (inverted ranges, all easings) must equal the mapping of the modulator's value of the same internal buffer, hold after the modulator is dropped, and probe modulators must be updated exactly once per buffer with the right dt; a sound whose volume is linked to a modulator and whose start is delayed must come in at the mapped gain. Search with shrinking.",
         note="The tweener's curve is C06's. The order-dependent one-buffer lag of a modulator linked to a later-created modulator is a known finding excluded by construction.",
         design="5/C17",
     ),
@@ -103,7 +103,7 @@ CLAIMS = {
     "C09": dict(
         level="exploration",
         technique="differential property-based testing: the same generated audio, settings and command history played as a static sound and as two streaming sounds over scripted decoders (different packet splits / seek behaviour), compared bit-for-bit in lock-step",
-        text="Each case runs three implementations side by side on identical process() calls and compares output frames bit-for-bit, playback states after every chunk and reported positions within one frame; the second streaming sound differs only in packet sizes and seek granularity, which must not change a single sample. The decoder threads are real; the harness owns their schedule at decoder-step / callback granularity through hook H2 so that 'the decoder keeps ahead' holds deterministically. Random search with shrinking, including streams longer than the 16384-frame ring.",
+        text="Each case runs three implementations side by side on identical process() calls and compares output frames bit-for-bit, playback states after every chunk and reported positions within one frame; the second streaming sound differs only in packet sizes and seek granularity, which must not change a single sample. The decoder threads are real; the harness owns their schedule at decoder-step / callback granularity through hook H2 so that 'the decoder keeps ahead' holds deterministically. Random search with shrinking, including streams longer than the 16384-frame ring, fades that outlast what the ring holds, and start positions at or past the end.",
         note="Sounds are driven directly with MockInfoBuilder. No seeks (as the property says). Playback speed x chunk size is kept below the ring size, otherwise no decoder can keep ahead.",
         design="5/C09",
     ),
